@@ -540,7 +540,16 @@ func vMakeField(id string, sel int, key string, ref *vRefEnc, cfg *EncoderConfig
 			return Field{Key: key, Type: StringerType, Interface: &vStringer{panic: true}}
 		}
 	case 24: // errors
-		switch vrt.Choice(id+".err", 5) {
+		switch vrt.Choice(id+".err", 6) {
+		case 5:
+			// a group one of whose causes fails to encode, followed by a healthy cause: the failure is
+			// reported under <key>Error (what has been written of the causes array so far stays)
+			vrt.Tag("fault=error-cause-panic")
+			e := vErrGroup{msg: "group", errs: []error{&vErr{msg: "c1"}, &vErr{panic: true}, &vErr{msg: "c3"}}}
+			ref.add(key, xs("group"))
+			ref.add(key+"Causes", &vExp{kind: xAny})
+			ref.add(key+"Error", &vExp{kind: xAnyStr})
+			return Field{Key: key, Type: ErrorType, Interface: e}
 		case 0:
 			e := &vErr{msg: "boom" + vrt.String(id+".em", 1)}
 			ref.add(key, xs(e.msg))
